@@ -24,6 +24,11 @@ def _dmrs_mod():
     return _dmrs
 
 
+def _sembase_mod():
+    from delphin import sembase
+    return sembase
+
+
 def _util_mod():
     from delphin import util
     return util
@@ -216,13 +221,98 @@ def descendant_list_sizes(mj):
     return max(size.values(), default=0)
 
 
+def sim_desc_sizes(ids, targets):
+    """Cost guard only: LENGTHS of the lists scope._descendants builds when the predication `i` has the
+    scopal targets `targets[i]` (ids, in order) — the same recursion on integers."""
+    size = {}
+
+    def visit(i, depth):
+        if i in size or depth > 400:
+            return
+        size[i] = 0
+        for j in targets.get(i, ()):
+            size[i] += 1
+            visit(j, depth + 1)
+            size[i] += size.get(j, 0)
+            if size[i] > 10 ** 7:
+                return
+    for i in ids:
+        visit(i, 0)
+    return max(size.values(), default=0)
+
+
+# option menus (round 6): every value of every option of the anchored functions
+MRS_ARGS_MENU = [[None, None], ["h", None], ["xeipu", None], ["x", None], ["", None], ["eh", None],
+                 [None, True], [None, False], ["xeipu", True], ["xeipu", False], ["h", False]]
+DMRS_ARGS_MENU = [[None, None], ["", None], ["h", None], ["xeipu", None], ["x", None], ["xh", None],
+                  [None, True], [None, False], ["xeipu", False], ["x", True], ["", False]]
+PRIOS = ["revpos", "rankrev"]
+
+
+def build_mrs(case):
+    """the MRS of a case.  `ctor == "omit-empty"`: every empty component (rels / hcons / icons / variables, the
+    argument dict of an EP) is left to the constructor's default (`None`), the call path
+    `MRS(top, index)` / `EP(pred, label)` of the public API; otherwise everything is passed explicitly."""
+    j = case["m"]
+    if case.get("ctor") != "omit-empty":
+        return semgen.mrs_from_json(j)
+    from delphin.lnk import Lnk
+    M = _mrs_mod()
+
+    def ep(e):
+        if e["args"] or e.get("carg") is not None:
+            return semgen.ep_from_json(e)
+        kw = {}
+        if e.get("lnk") is not None:
+            kw["lnk"] = Lnk.charspan(e["lnk"][0], e["lnk"][1])
+        if e.get("surface") is not None:
+            kw["surface"] = e["surface"]
+        if e.get("base") is not None:
+            kw["base"] = e["base"]
+        return M.EP(e["pred"], semgen.var_from_json(e["label"]), **kw)
+    kw = {}
+    if j["rels"]:
+        kw["rels"] = [ep(e) for e in j["rels"]]
+    if j.get("hcons"):
+        kw["hcons"] = [M.HCons(semgen.var_from_json(a), r, semgen.var_from_json(b)) for a, r, b in j["hcons"]]
+    if j.get("icons"):
+        kw["icons"] = [M.ICons(semgen.var_from_json(a), r, semgen.var_from_json(b)) for a, r, b in j["icons"]]
+    if j.get("vars"):
+        kw["variables"] = {semgen.var_from_json(v): dict((k, val) for k, val in ps) for v, ps in j["vars"]}
+    return M.MRS(semgen.var_from_json(j.get("top")), semgen.var_from_json(j.get("index")), **kw)
+
+
+def _arg_map(a):
+    return [[V(i), [[r, V(v)] for r, v in ra]] for i, ra in a.items()]
+
+
+def _scarg_map(a):
+    return [[V(i), [[r, rel, V(l)] for r, rel, l in sa]] for i, sa in a.items()]
+
+
 # ------------------------------------------------------------------ the check
 
 class C07(Check):
     pid = "C07"
     quick_cases = 2600
+    props_modules = ["Verif.C07.Props", "Verif.C07.PropsApi", "Verif.C07.Translated"]
+
+    def translation_specs(self):
+        """util._bfs / util._connected_components as their callers use them: set-valued adjacency, whose (unknown)
+        iteration order is the extra parameter `ord` of the translated functions (TRANSLATOR.md, round 3)"""
+        from .common import py2lean as P
+        from delphin import util
+        k = P.STR
+        return [P.Spec(util._bfs, "bfs", [("g", P.Dict(k, P.Set(k))), ("start", k)], P.Set(k), set_order=True),
+                P.Spec(util._connected_components, "connected_components",
+                       [("nodes", P.Lst(k)), ("edges", P.Lst(P.Tup(k, k)))], P.Lst(P.Set(k)), set_order=True)]
+
+    def translations(self):
+        from .common import py2lean as P
+        return P.translate_module(self.translation_specs(), "Verif.Trans.C07")
     lean_files = ([os.path.join(paths.LEAN, "Verif", "C07", f) for f in
-                   ("Model.lean", "Driver.lean", "Props.lean", "Lemmas.lean", "WfLemmas.lean", "DmrsLemmas.lean", "ConnLemmas.lean", "PlausLemmas.lean")]
+                   ("Model.lean", "Driver.lean", "Props.lean", "Lemmas.lean", "WfLemmas.lean", "DmrsLemmas.lean", "ConnLemmas.lean", "PlausLemmas.lean",
+                    "Api.lean", "ApiLemmas.lean", "DescLemmas.lean", "PropsApi.lean")]
                   + [os.path.join(paths.LEAN, "Verif", "Common", f) for f in
                      ("Sem.lean", "SemJson.lean", "SemLemmas.lean")])
     thorough_cases = 60000
@@ -243,7 +333,21 @@ class C07(Check):
             "EQ links and the top on a pendant node; linear scopal chains of depth 50/80 (120), also closed into a "
             "cycle, for descendants/representatives; stars with fan-out 12/30/60. DMRS cases: 0-6 nodes with distinct ids, predicates from 3 names so that "
             "many nodes compare equal, arbitrary links (EQ chains/cycles/self loops, H, HEQ, MOD/EQ, dangling ends), "
-            "top absent / a node / not a node. Non-trivial = at least one predication; distinct by JSON text.")
+            "top absent / a node / not a node. Non-trivial = at least one predication; distinct by JSON text. "
+            "ROUND 6, on every MRS case: MRS.arguments for 11 (types, expressed) combinations (types None/'h'/'xeipu'/'x'/''/'eh', "
+            "expressed None/True/False), scopal_arguments() without a scope map, scopal_arguments and scope.descendants over "
+            "the CONJOINED scope map the case's label equalities give (explicit scopes=), representatives with three priority "
+            "functions (reverse position, rank then reverse position, constant), a second round of calls on the same object "
+            "(purity) and an unchanged-input test; every second MRS is built through the constructor defaults (MRS(top, index) "
+            "with empty components omitted, EP(pred, label) without an argument dict). On every DMRS case: DMRS.arguments for "
+            "11 (types, expressed) combinations, scopal_arguments() without a scope map; DMRS() / DMRS(top) without links. "
+            "4% of the random MRSs have all variable ids shifted by 2^8-3 / 2^16-3 / 2^31-30 / 2^32-30 / 2^63-30 / 10^20, 6% of "
+            "the random DMRSs have their node ids re-numbered injectively into {-7, -1, 1, 3, 255, 65536, 2^31-1, 2^31, 2^32+1, "
+            "2^63-1, 2^63, 10^20} in random (non-ascending) order. SIZE BOUNDARIES, the same list in every run: hub-and-leaves "
+            "MRSs of 67 predications (thorough also 131), scopal and non-scopal, intact and with exactly one defect "
+            "(duplicated intrinsic variable / unconnected predication / predication scoping over itself / unselected "
+            "handle constraint) at the first, middle and last position; of 131 (thorough 261) predications with the defect "
+            "at the last position only (the model side costs the cube of the size).")
     assumptions = [
         "variable strings are (sort, canonical decimal id); sorts are ASCII",
         "EP ids pairwise distinct (proved when every predication has an ARG0 whose sort is not '_', i.e. on the "
@@ -258,6 +362,11 @@ class C07(Check):
         "returned (node order inside a conjoined scope is Python set order); that scope map is compared separately, as "
         "a partition plus the members of the top scope, with the model's DMRS.scopes; DMRS node ids are pairwise distinct",
         "recursion depth of scope._descendants stays below CPython's limit (structures have < 20 predications)",
+        "the `types` option is a Python string (substring test); priority functions are compared with the model for the "
+        "two tie-free ones (the model's insertion sort is specified up to the order of equal keys), the constant one "
+        "(stability of Python's sort) by the direct oracle only",
+        "scope.descendants over the conjoined map: the model is given the conjoined map the real scope.conjoin returned "
+        "(key choice and member order are Python set order); not run when the lists would exceed the heavy limit",
     ]
     trusted_base = ["hand-written model lean/Verif/Common/Sem.lean (+ C07/Model.lean), tied to delphin.mrs / "
                     "delphin.scope / delphin.dmrs / delphin.util by the correspondence run",
@@ -297,6 +406,19 @@ class C07(Check):
         ("VariableSplit", lambda: variable.split),
         ("VarFactoryInit", lambda: variable.VariableFactory.__init__),
         ("VarFactoryNew", lambda: variable.VariableFactory.new),
+        # round 6: shared support code the anchored functions go through
+        ("VariableType", lambda: variable.type),
+        ("VariableId", lambda: variable.id),
+        ("SemStructInit", lambda: _sembase_mod().SemanticStructure.__init__),
+        ("SemStructGetitem", lambda: _sembase_mod().SemanticStructure.__getitem__),
+        ("SemStructContains", lambda: _sembase_mod().SemanticStructure.__contains__),
+        ("PredicationInit", lambda: _sembase_mod().Predication.__init__),
+        ("ScopingInit", lambda: scope.ScopingSemanticStructure.__init__),
+        ("MrsInit", lambda: mrs.MRS.__init__),
+        ("FillVariables", lambda: _mrs_mod()._fill_variables),
+        ("EpEq", lambda: mrs.EP.__eq__),
+        ("NodeInit", lambda: _dmrs_mod().Node.__init__),
+        ("LinkInit", lambda: _dmrs_mod().Link.__init__),
     ]
 
     def tables(self):
@@ -362,6 +484,22 @@ class C07(Check):
                            mrs.EP("p", "h1", {"ARG0": "x5"})])
         probes += [ep.id for ep in m3.rels]
         probes.append(variable.VariableFactory(starting_vid=1).new(variable.HANDLE))
+        # the public names are the anchored functions themselves (no wrapper in between); `sort` aliases `type`
+        import delphin.dmrs as pub_dmrs
+        exports = [(n, getattr(mrs, n, None) is getattr(ops, n)) for n in
+                   ("is_connected", "has_intrinsic_variable_property", "has_complete_intrinsic_variables",
+                    "has_unique_intrinsic_variables", "plausibly_scopes", "is_well_formed")]
+        exports += [("MRS", mrs.MRS is M.MRS), ("EP", mrs.EP is M.EP), ("HCons", mrs.HCons is M.HCons),
+                    ("DMRS", pub_dmrs.DMRS is D.DMRS), ("Node", pub_dmrs.Node is D.Node), ("Link", pub_dmrs.Link is D.Link),
+                    ("variable.sort", variable.sort is variable.type),
+                    ("scope._connected_components", scope._connected_components is _util_mod()._connected_components),
+                    ("MRS.rels", isinstance(M.MRS.rels, property)), ("DMRS.nodes", isinstance(D.DMRS.nodes, property)),
+                    ("MRS-bases", [c.__name__ for c in M.MRS.__mro__[:3]] == ["MRS", "ScopingSemanticStructure", "SemanticStructure"]),
+                    ("DMRS-bases", [c.__name__ for c in D.DMRS.__mro__[:3]] == ["DMRS", "ScopingSemanticStructure", "SemanticStructure"]),
+                    ("no-override", all(n not in M.MRS.__dict__ and n not in D.DMRS.__dict__
+                                        for n in ("__getitem__", "__contains__")))]
+        out.append("def c07Exports : List (String × Bool) := [%s]" % ", ".join(
+            "(%s, %s)" % (lit(n), "true" if b else "false") for n, b in exports))
         out.append("def c07IdProbes : List (String × Nat) := [%s]" % ", ".join(
             "(%s, %d)" % (lit(V(x)[0]), V(x)[1]) for x in probes))
         return out
@@ -375,10 +513,16 @@ class C07(Check):
         entries (exponential blow-up of scope._descendants on densely self-scoping input; it
         terminates, but one such case costs tens of seconds on both sides)"""
         self.skipped_heavy = 0
+        k = 0
         for c in self.all_cases(rng, tier, n):
             if c["kind"] == "mrs" and descendant_list_sizes(c["m"]) > self.heavy_limit:
                 self.skipped_heavy += 1
                 continue
+            if c["kind"] == "mrs":
+                # constructor call path: every second MRS leaves its empty components to the defaults
+                k += 1
+                if k % 2 == 0:
+                    c = dict(c, ctor="omit-empty")
             yield c
 
     def extra_evidence(self):
@@ -497,9 +641,16 @@ class C07(Check):
                          node(10004, "_dog_n_1", "x")],
                  [(10000, 10001, "MOD", "EQ"), (10001, 10002, "MOD", "EQ"), (10003, 10004, "RSTR", "H"),
                   (10002, 10004, "ARG1", "NEQ")])
+        # node ids beyond machine sizes / negative / non-ascending, the top on each of them in turn
+        hug = [2 ** 63, 10 ** 20, -7, 2 ** 31, 2 ** 32 + 1]
+        for t in hug:
+            yield dm(t, [node(i, "_big_a_1" if k % 2 else "_dog_n_1", "e" if k % 2 else "x") for k, i in enumerate(hug)],
+                     [(hug[0], hug[1], "ARG1", "EQ"), (hug[2], hug[3], "ARG1", "H"), (hug[4], hug[0], "ARG1", "NEQ"),
+                      (hug[3], hug[4], "ARG2", "HEQ")], index=t)
         for top, links in ((None, [[0, 5, "", "H"], [0, 6, "", "H"], [5, 6, "ARG1", "EQ"]]),
                            (7, [[0, 5, "", "H"], [5, 0, "ARG1", "EQ"]]), (None, []), (0, [[0, 3, "", "H"]]),
-                           (None, [[1, 2, "ARG1", "NEQ"]])):
+                           (None, [[1, 2, "ARG1", "NEQ"]]), (None, None), (4, None),
+                           (2 ** 63 + 5, [[0, 3, "", "H"]]), (None, [[0, 10 ** 20, "", "H"], [10 ** 20, -3, "ARG1", "EQ"]])):
             yield {"kind": "norm", "src": "fixed", "top": top, "links": links}
 
     # large, densely linked structures — the same list in every run (the rng only
@@ -529,6 +680,51 @@ class C07(Check):
         for f in (12, 30, 60):
             yield mrs("big-star", semgen.gen_mrs_star(f, rng))
             yield mrs("big-star", semgen.gen_mrs_star(f, rng, scopal=True))
+        yield from self.size_boundary_cases(tier)
+
+    @staticmethod
+    def size_boundary_cases(tier):
+        """Structures of more than 64 / 128 (thorough: 256) predications whose ONLY defect sits at the first,
+        the middle or the last predication / handle constraint: a duplicated intrinsic variable, an unconnected
+        predication, a predication scoping over itself, a handle constraint nobody selects — and the intact base.
+        A test that looks at a bounded prefix (or drops the last element) answers wrongly on exactly these."""
+        import copy
+        # cost of the model side grows with the cube of the size: the larger sizes carry the last-position
+        # defects only (quick: 131 predications; thorough: 131 in full, 261 last-position)
+        plan = [(66, True)] + ([(130, True), (260, False)] if tier == "thorough" else [(130, False)])
+        for fan, full in plan:
+            for scopal in (False, True):
+                base = semgen.gen_mrs_star(fan, None, scopal=scopal)
+                n = len(base["rels"])
+                nh = len(base["hcons"])
+                if full:
+                    yield {"kind": "mrs", "src": "big-boundary", "m": base, "leqs": []}
+                    rel_pos, ins_pos, hc_pos = (1, n // 2, n - 1), (0, n // 2, n), sorted({0, nh // 2, nh})
+                else:
+                    rel_pos, ins_pos, hc_pos = (n - 1,), (n,), (nh,)
+                for pos in rel_pos:          # rels[0] is the hub
+                    if not full and scopal:
+                        continue
+                    m = copy.deepcopy(base)
+                    other = m["rels"][1 if pos != 1 else n - 1]
+                    m["rels"][pos]["args"][0] = ["ARG0", list(other["args"][0][1])]
+                    yield {"kind": "mrs", "src": "big-boundary", "m": m, "leqs": [], "defect": "dup-iv@%d" % pos}
+                for pos in ins_pos:
+                    if not full and scopal:
+                        continue
+                    m = copy.deepcopy(base)
+                    m["rels"].insert(pos, semgen._ep("_isl_n_1", ["h", 9000], [["ARG0", ["x", 9000]]]))
+                    yield {"kind": "mrs", "src": "big-boundary", "m": m, "leqs": [], "defect": "island@%d" % pos}
+                    m = copy.deepcopy(base)
+                    m["rels"].insert(pos, semgen._ep("_self_v_1", ["h", 9001],
+                                                     [["ARG0", ["e", 9001]], ["ARG1", ["h", 9001]], ["ARG2", ["e", 100]]]))
+                    yield {"kind": "mrs", "src": "big-boundary", "m": m, "leqs": [], "defect": "self-scope@%d" % pos}
+                for pos in hc_pos:
+                    if not full and not scopal:
+                        continue
+                    m = copy.deepcopy(base)
+                    m["hcons"].insert(pos, [["h", 9002], "qeq", ["h", 1]])
+                    yield {"kind": "mrs", "src": "big-boundary", "m": m, "leqs": [], "defect": "unselected-hcons@%d" % pos}
 
     def random_big(self, rng):
         r = rng.random()
@@ -557,7 +753,42 @@ class C07(Check):
         m = semgen.gen_mrs_star(rng.randrange(8, 31), rng, scopal=rng.random() < 0.5)
         return {"kind": "mrs", "src": "big-star", "m": m, "leqs": semgen.gen_leqs(rng, m)}
 
+    BIG_OFFSETS = [2 ** 8 - 3, 2 ** 16 - 3, 2 ** 31 - 30, 2 ** 32 - 30, 2 ** 63 - 30, 10 ** 20]
+
+    @staticmethod
+    def remap_dmrs_ids(rng, d):
+        """the same DMRS with its node ids mapped injectively to negative / huge / non-ascending numbers
+        (0 = TOP_NODE_ID is never produced); ids that are not nodes (dangling ends, missing top) move too"""
+        import copy
+        d = copy.deepcopy(d)
+        pool = [-7, -1, 1, 2 ** 31 - 1, 2 ** 31, 2 ** 32 + 1, 2 ** 63 - 1, 2 ** 63, 10 ** 20, 3, 255, 65536]
+        rng.shuffle(pool)
+        mp = {}
+
+        def f(i):
+            if i is None or i == 0:
+                return i
+            if i not in mp:
+                mp[i] = pool[len(mp)] if len(mp) < len(pool) else 10 ** 21 + len(mp)
+            return mp[i]
+        for n in d["nodes"]:
+            n["id"] = f(n["id"])
+        d["links"] = [[f(a), f(b), r, p] for a, b, r, p in d["links"]]
+        d["top"] = f(d["top"])
+        d["index"] = f(d["index"])
+        return d
+
     def random_cases(self, rng, n, kinds=None):
+        for c in self._random_cases(rng, n, kinds):
+            # numbers beyond machine sizes: 4% of the MRSs shifted as a whole, 6% of the DMRSs re-numbered
+            if c["kind"] == "mrs" and rng.random() < 0.04:
+                c = dict(c, m=semgen.shift_vars(c["m"], rng.choice(self.BIG_OFFSETS)))
+                c["leqs"] = semgen.gen_leqs(rng, c["m"])
+            elif c["kind"] == "dmrs" and rng.random() < 0.06:
+                c = dict(c, d=self.remap_dmrs_ids(rng, c["d"]))
+            yield c
+
+    def _random_cases(self, rng, n, kinds=None):
         for _ in range(n):
             r = rng.random()
             if kinds:
@@ -596,6 +827,8 @@ class C07(Check):
     def search_cases(self, rng, tier, n, seeds):
         kinds = sorted({c.get("src") for c in seeds if c.get("src") in
                         ("tree", "mut", "wild", "dmrs", "islands", "big-clique", "big-conjoin", "big-dmrs", "big-chain", "big-star")})
+        if any(c.get("src") == "big-boundary" for c in seeds):
+            yield from self.size_boundary_cases(tier)
         for c in seeds[:20]:
             if c["kind"] == "mrs":
                 for _ in range(20):
@@ -612,7 +845,8 @@ class C07(Check):
         return self.impl_dmrs(case)
 
     def impl_mrs(self, case):
-        m = semgen.mrs_from_json(case["m"])
+        m = build_mrs(case)
+        before = canon(semgen.mrs_to_json(m))
         leqs = [(semgen.var_from_json(a), semgen.var_from_json(b)) for a, b in case.get("leqs", [])]
         res = {"ids": _ids(m.rels)}
         res["connected"] = bool(ops.is_connected(m))
@@ -622,14 +856,16 @@ class C07(Check):
         res["plausible"] = bool(ops.plausibly_scopes(m))
         res["wf"] = bool(ops.is_well_formed(m))
         top, scopes = m.scopes()
+        shadow = {l: list(ps) for l, ps in scopes.items()}
         res["top"] = V(top)
         res["scopes"] = [[V(l), _ids(ps)] for l, ps in scopes.items()]
         scargs = m.scopal_arguments(scopes=scopes)
-        res["scargs"] = [[V(i), [[r, rel, V(l)] for r, rel, l in sa]] for i, sa in scargs.items()]
+        res["scargs"] = _scarg_map(scargs)
         try:
             cj = scope.conjoin(scopes, leqs)
             res["conjoin"] = {"ok": [[V(l), _ids(ps)] for l, ps in cj.items()]}
         except KeyError:
+            cj = None
             res["conjoin"] = {"err": "KeyError"}
         try:
             ds = scope.descendants(m)
@@ -641,10 +877,65 @@ class C07(Check):
             res["reps"] = {"ok": [[V(l), _ids(ps)] for l, ps in reps.items()]}
         except KeyError:
             res["reps"] = {"err": "KeyError"}
+        # ---- round 6: the option plumbing of the same functions
+        res["args_menu"] = [_arg_map(m.arguments(types=t, expressed=e)) for t, e in MRS_ARGS_MENU]
+        res["scargs_default"] = _scarg_map(m.scopal_arguments())
+        if cj is not None:
+            # scopal arguments / descendants over the CONJOINED scope map (explicit `scopes=`)
+            sc2 = m.scopal_arguments(scopes=cj)
+            res["scargs_conj"] = _scarg_map(sc2)
+            targets = {ep.id: [p.id for _, _, l in sc2[ep.id] for p in cj.get(l, [])] for ep in m.rels}
+            if sim_desc_sizes([ep.id for ep in m.rels], targets) <= self.heavy_limit:
+                try:
+                    d2 = scope.descendants(m, cj)
+                    res["desc_conj"] = {"ok": [[V(i), _ids(ps)] for i, ps in d2.items()]}
+                except KeyError:
+                    res["desc_conj"] = {"err": "KeyError"}
+        index = {ep.id: i for i, ep in enumerate(m.rels, 1)}
+        fns = {"revpos": lambda p: -index[p.id], "rankrev": lambda p: (rep_rank(m, p), -index[p.id]),
+               "const": lambda p: 0}
+
+        def with_prio(k):
+            try:
+                return {"ok": [[V(l), _ids(ps)] for l, ps in scope.representatives(m, priority=fns[k]).items()]}
+            except KeyError:
+                return {"err": "KeyError"}
+        res["reps_prio"] = [with_prio(k) for k in PRIOS]
+        res["reps_const"] = with_prio("const")
+        # ---- purity: the same object asked again after everything else; nothing was modified
+        scope_map_unchanged = (list(scopes) == list(shadow) and all(
+            len(scopes[l]) == len(shadow[l]) and all(a is b for a, b in zip(scopes[l], shadow[l])) for l in shadow))
+        # the conjoined map is a NEW map with NEW lists: scribbling on it leaves the input alone …
+        conj_independent = True
+        if cj is not None:
+            for v in cj.values():
+                v.append(None)
+            cj["*scribble*"] = [None]
+            conj_independent = (list(scopes) == list(shadow) and all(
+                len(scopes[l]) == len(shadow[l]) and all(a is b for a, b in zip(scopes[l], shadow[l])) for l in shadow))
+        # … and scribbling on the map m.scopes() returned does not reach the next call
+        for v in scopes.values():
+            v.append(None)
+        scopes["*scribble*"] = [None]
+        again = {"connected": bool(ops.is_connected(m)), "plausible": bool(ops.plausibly_scopes(m)),
+                 "ivprop": bool(ops.has_intrinsic_variable_property(m)), "wf": bool(ops.is_well_formed(m))}
+        top2, scopes2 = m.scopes()
+        again["top"] = V(top2)
+        again["scopes"] = [[V(l), _ids(ps)] for l, ps in scopes2.items()]
+        again["scargs"] = _scarg_map(m.scopal_arguments(scopes=scopes2))
+        try:
+            again["reps"] = {"ok": [[V(l), _ids(ps)] for l, ps in scope.representatives(m).items()]}
+        except KeyError:
+            again["reps"] = {"err": "KeyError"}
+        again["mrs_unchanged"] = canon(semgen.mrs_to_json(m)) == before
+        again["scope_map_unchanged"] = scope_map_unchanged
+        again["conj_independent"] = conj_independent
+        res["again"] = again
         return res
 
     def impl_dmrs(self, case):
         d = semgen.dmrs_from_json(case["d"])
+        before = canon(semgen.dmrs_to_json(d))
         res = {}
 
         def attempt(f):
@@ -655,6 +946,11 @@ class C07(Check):
         res["args_all"] = attempt(lambda: [[i, [[r, t] for r, t in a]] for i, a in d.arguments().items()])
         res["args_ns"] = attempt(lambda: [[i, [[r, t] for r, t in a]] for i, a in d.arguments(types="xeipu").items()])
         res["is_quantifier"] = [bool(d.is_quantifier(n.id)) for n in d.nodes]
+        res["args_menu"] = [attempt(lambda: [[i, [[r, t] for r, t in a]] for i, a in
+                                             d.arguments(types=ty, expressed=ex).items()])
+                            for ty, ex in DMRS_ARGS_MENU]
+        res["scargs_raw"] = attempt(lambda: [[i, [[r, rel, t] for r, rel, t in a]]
+                                             for i, a in d.scopal_arguments().items()])
         try:
             top, scopes = d.scopes()
             res["scopes"] = {"ok": {"top": V(top), "scopes": [[V(l), [n.id for n in ns]] for l, ns in scopes.items()]}}
@@ -668,21 +964,53 @@ class C07(Check):
         res["reps"] = attempt(lambda: [[V(l), [n.id for n in ns]] for l, ns in scope.representatives(d).items()])
         res["descendants_default"] = attempt(
             lambda: [[i, [n.id for n in ns]] for i, ns in scope.descendants(d).items()])
+        # purity: scribble on the returned scope map, ask again; the DMRS itself is untouched
+        first_scopes = [[V(l), [n.id for n in ns]] for l, ns in scopes.items()]
+        for v in scopes.values():
+            v.append(None)
+        scopes["*scribble*"] = [None]
+        top2, scopes2 = d.scopes()
+        res["again"] = {"scopes": V(top2) == V(top) and
+                        sorted(sorted(n.id for n in ns) for ns in scopes2.values()) == sorted(sorted(x) for _, x in first_scopes),
+                        "reps": attempt(lambda: sorted([sorted(n.id for n in ns)
+                                                        for ns in scope.representatives(d).values()])) ==
+                        ({"ok": sorted(sorted(x) for _, x in res["reps"]["ok"])} if "ok" in res["reps"] else res["reps"]),
+                        "args": attempt(lambda: [[i, [[r, t] for r, t in a]] for i, a in d.arguments().items()]) == res["args_all"],
+                        "unchanged": canon(semgen.dmrs_to_json(d)) == before}
         return res
 
     def impl_norm(self, case):
         from delphin.dmrs import DMRS, Link
-        d = DMRS(top=case["top"], links=[Link(a, b, r, p) for a, b, r, p in case["links"]])
+        if case["links"] is None:            # DMRS(top) / DMRS(): `links` left to the default
+            d = DMRS(top=case["top"]) if case["top"] is not None else DMRS()
+        else:
+            d = DMRS(top=case["top"], links=[Link(a, b, r, p) for a, b, r, p in case["links"]])
         return {"top": d.top, "links": [[l.start, l.end, l.role, l.post] for l in d.links]}
 
     # ---- model
     def model_request(self, case):
         if case["kind"] == "mrs":
-            return {"op": "mrs", "m": case["m"], "leqs": case.get("leqs", [])}
+            req = {"op": "mrs", "m": case["m"], "leqs": case.get("leqs", []), "args_menu": MRS_ARGS_MENU,
+                   "prio": PRIOS}
+            # descendants over the conjoined map: the model is given the map the real conjoin returned
+            # (key choice and member order inside a conjoined scope are Python set order)
+            m = semgen.mrs_from_json(case["m"])
+            if len({ep.id for ep in m.rels}) == len(m.rels):
+                leqs = [(semgen.var_from_json(a), semgen.var_from_json(b)) for a, b in case.get("leqs", [])]
+                try:
+                    cj = scope.conjoin(m.scopes()[1], leqs)
+                except KeyError:
+                    cj = None
+                if cj is not None:
+                    sc2 = m.scopal_arguments(scopes=cj)
+                    targets = {ep.id: [p.id for _, _, l in sc2[ep.id] for p in cj.get(l, [])] for ep in m.rels}
+                    if sim_desc_sizes([ep.id for ep in m.rels], targets) <= self.heavy_limit:
+                        req["obs_conj"] = [[V(l), _ids(ps)] for l, ps in cj.items()]
+            return req
         if case["kind"] == "norm":
-            return {"op": "dmrs_norm", "top": case["top"], "links": case["links"]}
+            return {"op": "dmrs_norm", "top": case["top"], "links": case["links"] or []}
         d = semgen.dmrs_from_json(case["d"])
-        req = {"op": "dmrs", "d": semgen.dmrs_to_json(d)}
+        req = {"op": "dmrs", "d": semgen.dmrs_to_json(d), "args_menu": DMRS_ARGS_MENU}
         # descendants / representatives are computed by the model over the scope map the real
         # d.scopes() returned (the order inside a conjoined scope is Python set order)
         try:
@@ -699,12 +1027,12 @@ class C07(Check):
 
     def model_expected(self, case, res):
         if case["kind"] == "mrs":
-            exp = dict(res)
+            exp = {k: v for k, v in res.items() if k not in ("again", "reps_const")}
             exp["connected_any_start"] = True
             return exp
         if case["kind"] == "norm":
             return res
-        return {k: v for k, v in res.items() if k != "descendants_default"}
+        return {k: v for k, v in res.items() if k not in ("descendants_default", "again")}
 
     def model_compare(self, case, expected, answer):
         if isinstance(answer, dict) and "unmodelled" in answer:
@@ -718,6 +1046,14 @@ class C07(Check):
             if isinstance(a, dict) and "ok" in e.get("conjoin", {}) and "ok" in a.get("conjoin", {}):
                 e["conjoin"] = {"ok": self._canon_partition(e["conjoin"]["ok"])}
                 a["conjoin"] = {"ok": self._canon_partition(a["conjoin"]["ok"])}
+            if isinstance(a, dict):
+                # over the conjoined map: not run when the lists would be too long (doubling)
+                if "scargs_conj" not in a:
+                    e.pop("scargs_conj", None)
+                    e.pop("desc_conj", None)
+                if "desc_conj" not in e or "desc_conj" not in a:
+                    e.pop("desc_conj", None)
+                    a.pop("desc_conj", None)
             return super().model_compare(case, e, a)
         if case["kind"] == "norm":
             return super().model_compare(case, expected, answer)
@@ -751,7 +1087,7 @@ class C07(Check):
 
         def fail(clause, detail):
             fails.append({"clause": clause, "detail": detail})
-        m = semgen.mrs_from_json(case["m"])
+        m = build_mrs(case)
         eps = list(m.rels)
         ids = [ep.id for ep in eps]
         distinct_ids = len(set(ids)) == len(ids)
@@ -846,6 +1182,74 @@ class C07(Check):
             if len(seen_classes) != len(classes):
                 fail("conjoin does not produce one scope per connected component", None)
 
+        # -- round 6: option plumbing.  arguments(types, expressed) against its definition
+        if distinct_ids:
+            ivs = [ep.args.get("ARG0") for ep in eps]
+            for (t, e), got in zip(MRS_ARGS_MENU, res["args_menu"]):
+                want = [[V(ep.id), [[r, V(v)] for r, v in ep.args.items()
+                                    if r not in ("ARG0", "CARG")
+                                    and (t is None or variable.type(v) in t)
+                                    and (e is None or (v in ivs) == e)]] for ep in eps]
+                if got != want:
+                    fail("MRS.arguments(types, expressed) differs from its definition", {"types": t, "expressed": e})
+            if res["scargs_default"] != res["scargs"]:
+                fail("scopal_arguments() differs from scopal_arguments(scopes=m.scopes()[1])", None)
+            # scopal arguments by definition: a label of the map as such (lheq), else through the LAST hcons
+            lasthc = {}
+            for hc in m.hcons:
+                lasthc[hc.hi] = hc
+            cj_res = None
+            if "ok" in res["conjoin"]:
+                cj_res = {semgen.var_from_json(l): [semgen.var_from_json(i) for i in ids_]
+                          for l, ids_ in res["conjoin"]["ok"]}
+            for key, keyset in (("scargs", set(labels)), ("scargs_conj", set(cj_res) if cj_res is not None else None)):
+                if keyset is None or key not in res:
+                    continue
+                want = [[V(ep.id), [[r, "lheq", V(v)] if v in keyset else
+                                    [r, lasthc[v].relation, V(lasthc[v].lo)]
+                                    for r, v in _out_args(ep) if v in keyset or v in lasthc]] for ep in eps]
+                if res[key] != want:
+                    fail("scopal_arguments(scopes=S) differs from its definition", {"which": key})
+            # descendants over the conjoined map: sound always, complete when that structure is acyclic
+            if cj_res is not None and "ok" in res.get("desc_conj", {}):
+                pos_of = {ep.id: i for i, ep in enumerate(eps)}
+                mem2 = {l: [pos_of[i] for i in ids_] for l, ids_ in cj_res.items()}
+                succ2 = {}
+                for i, ep in enumerate(eps):
+                    out = []
+                    for _, v in _out_args(ep):
+                        if v in mem2:
+                            out.extend(mem2[v])
+                        elif v in lasthc:
+                            out.extend(mem2.get(lasthc[v].lo, []))
+                    succ2[i] = out
+                cyc2 = scopal_cyclic(succ2)
+                got2 = {canon(i): ps for i, ps in res["desc_conj"]["ok"]}
+                if sorted(got2) != sorted(canon(V(ep.id)) for ep in eps):
+                    fail("descendants(m, scopes=S) is not keyed by exactly the predication ids", None)
+                else:
+                    vpos = {canon(V(ep.id)): i for i, ep in enumerate(eps)}
+                    for ep in eps:
+                        g = {vpos[canon(x)] for x in got2[canon(V(ep.id))]}
+                        w = set(naive_reach(succ2, pos_of[ep.id]))
+                        if not g <= w:
+                            fail("descendants(m, scopes=S): a listed descendant is not a scopal descendant over S", V(ep.id))
+                        elif not cyc2 and g != w:
+                            fail("descendants(m, scopes=S) (acyclic) differ from the transitive closure over S", V(ep.id))
+            elif cj_res is not None and "err" in res.get("desc_conj", {}):
+                fail("descendants(m, scopes=S) raised on a scope map made of m's own predications", None)
+        # -- purity: asked again after every other call the answers are the same; nothing was modified
+        ag = res["again"]
+        for k in ("connected", "plausible", "ivprop", "wf", "top", "scopes", "scargs", "reps"):
+            if ag[k] != res[k]:
+                fail("a second call on the same object gives a different answer", k)
+        if not ag["mrs_unchanged"]:
+            fail("the MRS was modified by the tests / scope functions", None)
+        if not ag["conj_independent"]:
+            fail("the map scope.conjoin returned shares its dict or its lists with the scope map it was given", None)
+        if not ag["scope_map_unchanged"]:
+            fail("the scope map handed to scopal_arguments / conjoin / descendants was modified", None)
+
         # -- descendants / representatives: termination, membership, existence
         if "err" in res["descendants"] or "err" in res["reps"]:
             if distinct_ids:
@@ -881,6 +1285,18 @@ class C07(Check):
                 want = sorted(want, key=lambda i: (rep_rank(m, eps[i]), i))
                 if [pos[id(p)] for p in reps[l]] != want:
                     fail("representatives differ from their definition (unblocked members by priority)", V(l))
+        # -- representatives(priority=f): the same members, ordered by f (Python's sort is stable)
+        if distinct_ids:
+            default = [[V(l), _ids(reps[l])] for l in labels]
+            posv = {canon(V(ep.id)): i for i, ep in enumerate(eps)}
+
+            def resort(keyf):
+                return [[l, sorted(ids_, key=lambda v: keyf(posv[canon(v)]))] for l, ids_ in default]
+            wants = {"revpos": resort(lambda i: -i), "rankrev": resort(lambda i: (rep_rank(m, eps[i]), -i)),
+                     "const": resort(lambda i: i)}
+            for k, got in list(zip(PRIOS, res["reps_prio"])) + [("const", res["reps_const"])]:
+                if got.get("ok") != wants[k]:
+                    fail("representatives(priority=f) is not the default representatives re-ordered by f", k)
         if res["wf"] and distinct_ids:
             for l in labels:
                 if not reps[l]:
@@ -928,25 +1344,32 @@ class C07(Check):
             if len(holder) != 1 or top != holder[0]:
                 fail("DMRS top scope is not the scope containing the top node itself",
                      {"impl": top, "holds_top_node": holder})
+        for k, ok in res.get("again", {}).items():
+            if not ok:
+                fail("DMRS: a second call on the same object gives a different answer / the object was modified", k)
         # ---- arguments / scopal arguments / descendants / representatives over the links
         idset = set(ids)
         node_of = {n.id: n for n in nodes}
         links = list(d.links)
         scopal = [l for l in links if l.post in ("H", "HEQ")]
 
-        def want_args(types):
+        def want_args(types, expressed=None):
             out = {i: [] for i in ids}
             for l in links:
                 if l.role == "MOD":
                     continue
-                if types is not None:
+                if types:                              # '' and None: no filter
                     if l.post in ("H", "HEQ"):
-                        continue                       # 'h' is not among 'xeipu'
-                    if l.end not in idset:
-                        return "KeyError"
-                    t = node_of[l.end].type
-                    if t is None or t not in types:
-                        continue
+                        if "h" not in types:
+                            continue
+                    else:
+                        if l.end not in idset:
+                            return "KeyError"
+                        t = node_of[l.end].type
+                        if t is None or t not in types:
+                            continue
+                if expressed is False:
+                    continue                           # a DMRS has no unexpressed arguments
                 if l.start not in idset:
                     return "KeyError"
                 out[l.start].append([l.role, l.end])
@@ -956,6 +1379,20 @@ class C07(Check):
             got = res[key].get("ok", res[key].get("err"))
             if got != w:
                 fail("DMRS.arguments differs from the links it is defined by", {"which": key, "want": w, "got": got})
+        for (ty, ex), g in zip(DMRS_ARGS_MENU, res["args_menu"]):
+            w = want_args(ty, ex)
+            if g.get("ok", g.get("err")) != w:
+                fail("DMRS.arguments(types, expressed) differs from the links it is defined by",
+                     {"types": ty, "expressed": ex, "want": w, "got": g})
+        if any(l.start not in idset for l in scopal):
+            w = "KeyError"
+        else:
+            wd = {i: [] for i in ids}
+            for l in scopal:
+                wd[l.start].append([l.role, "lheq" if l.post == "HEQ" else "qeq", l.end])
+            w = [[i, wd[i]] for i in ids]
+        if res["scargs_raw"].get("ok", res["scargs_raw"].get("err")) != w:
+            fail("DMRS.scopal_arguments() differs from the H/HEQ links", None)
         isq = [any(l.role == "RSTR" and l.start == i for l in links) for i in ids]
         if res["is_quantifier"] != isq:
             fail("DMRS.is_quantifier differs from 'has an outgoing RSTR link'", None)
@@ -1052,9 +1489,10 @@ class C07(Check):
     def oracle_norm(self, case, res):
         fails = []
         top = case["top"]
+        links = case["links"] or []
         if top is None:
-            top = next((l[1] for l in case["links"] if l[0] == 0), None)
-        want = {"top": top, "links": [l for l in case["links"] if l[0] != 0]}
+            top = next((l[1] for l in links if l[0] == 0), None)
+        want = {"top": top, "links": [l for l in links if l[0] != 0]}
         if res != want:
             fails.append({"clause": "DMRS constructor: top / links differ from the documented normalisation "
                                     "(links from node 0 removed; the first gives the top when none is given)",
@@ -1081,7 +1519,7 @@ class C07(Check):
 
     # ---- evidence
     def nontrivial_key(self, case, res):
-        body = (case["m"]["rels"] if case["kind"] == "mrs" else case["links"] if case["kind"] == "norm"
+        body = (case["m"]["rels"] if case["kind"] == "mrs" else (case["links"] or [None]) if case["kind"] == "norm"
                 else case["d"]["nodes"])
         if not body:
             return None
@@ -1100,6 +1538,11 @@ class C07(Check):
         if case["kind"] == "mrs":
             m = case["m"]
             ne = len(m["rels"])
+            if case.get("ctor") == "omit-empty":
+                inc("mrs:ctor=omit-empty (defaults of MRS()/EP())")
+            if case.get("src") == "big-boundary":
+                inc("mrs:big-boundary %s: connected=%s unique=%s plausible=%s" % (
+                    (case.get("defect") or "intact").split("@")[0], res["connected"], res["unique"], res["plausible"]))
             inc("mrs:eps=%s" % (ne if ne <= 8 else "9-15" if ne <= 15 else "16-31" if ne <= 31 else "32-63" if ne <= 63 else "64+"))
             nl = len(case.get("leqs", []))
             if nl >= 10:
@@ -1137,6 +1580,28 @@ class C07(Check):
             mm = semgen.mrs_from_json(m)
             if scopal_cyclic(mrs_scopal_structure(mm)[2]):
                 inc("mrs:cyclic-scopal-structure")
+            # round 6: option plumbing reached
+            am = dict((canon(k), v) for k, v in zip(MRS_ARGS_MENU, res["args_menu"]))
+            if any(a for _, a in am[canon([None, True])]):
+                inc("mrs:args expressed=True non-empty")
+            if any(a for _, a in am[canon([None, False])]):
+                inc("mrs:args expressed=False non-empty")
+            if am[canon(["eh", None])] != am[canon(["h", None])]:
+                inc("mrs:args types='eh' differs from 'h'")
+            if "desc_conj" in res:
+                inc("mrs:desc_conj=" + ("err" if "err" in res["desc_conj"] else
+                                        "same-as-default" if res["desc_conj"] == res["descendants"] else "differs-from-default"))
+            elif "ok" in res["conjoin"]:
+                inc("mrs:desc_conj=skipped-heavy")
+            if "scargs_conj" in res and res["scargs_conj"] != res["scargs"]:
+                inc("mrs:scargs over conjoined map differ from default")
+            for k, r in zip(PRIOS, res["reps_prio"]):
+                if r != res["reps"]:
+                    inc("mrs:reps priority=%s reorders" % k)
+            if res["reps_const"] != res["reps"]:
+                inc("mrs:reps priority=const reorders")
+            if any(v[1] >= 2 ** 31 for e in m["rels"] for _, v in e["args"]):
+                inc("mrs:variable ids >= 2^31")
         else:
             d = case["d"]
             nn = len(d["nodes"])
@@ -1146,6 +1611,13 @@ class C07(Check):
             for k in ("args_ns", "scargs", "descendants", "reps"):
                 if k in res:
                     inc("dmrs:%s=%s" % (k, res[k].get("err", "ok")))
+            for (ty, ex), r in zip(DMRS_ARGS_MENU, res["args_menu"]):
+                if "err" in r:
+                    inc("dmrs:args(types=%r, expressed=%r)=%s" % (ty, ex, r["err"]))
+            if "ok" in res["scargs_raw"] and any(a for _, a in res["scargs_raw"]["ok"]):
+                inc("dmrs:scargs_raw non-empty")
+            if any(abs(n["id"]) >= 2 ** 31 or n["id"] < 0 for n in d["nodes"]):
+                inc("dmrs:node ids negative or >= 2^31")
             if "ok" in res.get("descendants", {}) and any(ns for _, ns in res["descendants"]["ok"]):
                 inc("dmrs:has-descendants")
             if "ok" in res.get("reps", {}) and any(not ns for _, ns in res["reps"]["ok"]):
